@@ -168,7 +168,25 @@ def says_empty(k, arg):
     return False
 
 
-def pre_loop_returns(chk, rule, anchor, prog, fn, head, opaque=None, empty_of=None, empty_ok=None, what="the loop"):
+def says_zero(k, term):
+    """path condition k holds only when the count `term` (possibly widened) is 0"""
+    from nx import sym
+    t = k[0]
+    while isinstance(t, tuple) and t and t[0] == "cast":
+        t = t[1]
+    if t == term:
+        return len(k) == 3 and k[2] == ((0, 0),)
+    if k[0][0] == "bin" and k[0][1] == "Eq" and len(k) == 2 and k[1] is True:
+        xs = list(k[0][2:4])
+        def strip(x):
+            while isinstance(x, tuple) and x and x[0] == "cast":
+                x = x[1]
+            return x
+        return any(strip(x) == term for x in xs) and any(sym.is_c(x) and x[1] == 0 for x in xs)
+    return False
+
+
+def pre_loop_returns(chk, rule, anchor, prog, fn, head, opaque=None, empty_of=None, empty_ok=None, what="the loop", zero_of=None):
     """A loop induction says nothing about code that returns instead of entering the loop. Before the loop a function may
     only (a) fail because a call it made failed — an Err leaf on a path holding a failed step — or (b), when `empty_of` is
     given, return the value `empty_ok` accepts under a condition that says that collection is empty."""
@@ -182,12 +200,16 @@ def pre_loop_returns(chk, rule, anchor, prog, fn, head, opaque=None, empty_of=No
     bad = []
     for c_, l_ in pre:
         failed = [k for k in c_ if len(k) == 3 and k[0][0] == "discr" and k[2] == ((1, 1),) and (k[0][1][0] == "seq" or (k[0][1][0] == "call" and not k[0][1][1].endswith("::next")))]
+        # an earlier loop left through its error exit is a failed step too (that loop is judged by its own summary)
+        failed += [k for k in c_ if len(k) == 3 and k[0][0] == "loopexit" and not any(lo <= 0 <= hi for lo, hi in k[2])]
         if l_[0] == "adt" and l_[2] == "Err" and failed:
             continue
         if l_[0] == "ret" and isinstance(l_[-1], tuple) and l_[-1][0] == "adt" and l_[-1][2] == "Err" and failed:
             continue
         if empty_of is not None and any(says_empty(k, empty_of) for k in c_) and (empty_ok is None or empty_ok(l_)):
             continue
+        if zero_of is not None and any(says_zero(k, zero_of) for k in c_) and (empty_ok is None or empty_ok(l_)):
+            continue
         bad.append("returns %s when %s" % (show(l_)[:70], "; ".join(show(k[0])[:50] for k in c_)[:150] or "always"))
-    chk.ob(rule, anchor, not bad, "before %s nothing is returned except the failure of a step%s" % (what, " (or the empty result for an empty input)" if empty_of is not None else "") if not bad else
+    chk.ob(rule, anchor, not bad, "before %s nothing is returned except the failure of a step%s" % (what, " (or the empty result for an empty input)" if (empty_of is not None or zero_of is not None) else "") if not bad else
            "a result is produced without running %s: %s" % (what, "; ".join(bad)[:360]), fn.where(), key="pre-loop-returns")
